@@ -220,6 +220,30 @@ pub fn soak(calls: &[Call], expected: &[String], repeats: usize) -> Option<(usiz
     soak_then_probe(calls, expected, repeats, &[], &[]).map(|(r, i, g, _)| (r, i, g))
 }
 
+/// A call with a very long text is a phase of its own: it is made once, not `repeats` times.
+fn is_flood(c: &Call) -> bool {
+    matches!(&c.op, Op::Rewrite { text, .. } | Op::T2d { text } if text.len() > 20_000)
+}
+
+/// `n` distinct pronounceable pseudo-words (three consonant-vowel syllables, numbered from `from`):
+/// whatever the library remembers per distinct word (memo, filter, interning table) is filled up.
+pub fn flood_text(from: usize, n: usize) -> String {
+    const C: [&str; 20] = ["b", "c", "d", "f", "g", "h", "j", "k", "l", "m", "n", "p", "r", "s", "t", "v", "w", "x", "z", "q"];
+    const V: [&str; 5] = ["a", "e", "i", "o", "u"];
+    let mut out = String::with_capacity(n * 7);
+    for i in from..from + n {
+        let mut k = i;
+        for _ in 0..3 {
+            let s = k % 100;
+            k /= 100;
+            out.push_str(C[s / 5]);
+            out.push_str(V[s % 5]);
+        }
+        out.push(if i % 97 == 0 { '.' } else { ' ' });
+    }
+    out
+}
+
 /// number of leading probe calls that are also made between the phases of the soak
 const INTER: usize = 40;
 
@@ -240,7 +264,8 @@ pub fn soak_then_probe(
             // history of one call leaves behind must not change what the next, different call gives)
             let inter = probe.len().min(INTER);
             for (i, c) in calls.iter().enumerate() {
-                for r in 0..repeats {
+                let reps = if is_flood(c) { repeats.min(1) } else { repeats };
+                for r in 0..reps {
                     let got = exec_call(&ls, c, false);
                     if got != expected[i] {
                         return Some((r, i, got, false));
@@ -366,7 +391,7 @@ fn single_call_case(call: &Call, expected: &str) -> Case {
 
 fn report_violation(lines: &mut Vec<String>, seed: u64, tag: u64, case: &Case, oracle: &str, detail: &str) -> bool {
     let v = Violation { oracle: oracle.to_string(), detail: detail.to_string() };
-    let dummy = C14 { corpus: Corpus { calls: vec![], expected: vec![] } };
+    let dummy = C14 { dense: Default::default(), corpus: Corpus { calls: vec![], expected: vec![] } };
     let path = write_replay(&dummy, seed, tag, case, &v, "found outside the schedule batch (single call)");
     match confirm_in_child(&path, oracle) {
         Ok(()) => {
@@ -439,7 +464,7 @@ pub fn replay_c14(doc: &Value) -> i32 {
             _ => 2,
         };
     }
-    let check = C14 { corpus: Corpus { calls: vec![], expected: vec![] } };
+    let check = C14 { dense: Default::default(), corpus: Corpus { calls: vec![], expected: vec![] } };
     let cap = Capture::start();
     let mut st = Stats::default();
     let r = guarded(|| check.execute(&case, &mut st));
@@ -567,7 +592,7 @@ pub fn run_c14(cfg: &BatchCfg, corpus_size: usize, pristine_sample: usize) -> i3
                     sched_seed: 0,
                     trace: None,
                 };
-                let check = C14 { corpus: Corpus { calls: vec![], expected: vec![] } };
+                let check = C14 { dense: Default::default(), corpus: Corpus { calls: vec![], expected: vec![] } };
                 let v0 = Violation { oracle: "H1-history-independence".into(), detail: detail.clone() };
                 match minimise_isolated(&check, &case, "H1-history-independence", 400) {
                     Some((c2, v2, n2)) => {
@@ -641,7 +666,7 @@ pub fn run_c14(cfg: &BatchCfg, corpus_size: usize, pristine_sample: usize) -> i3
     };
     let mut direct_mismatch: Option<Violation> = None;
     if silence_hit.is_none() {
-        let probe = C14 { corpus: Corpus { calls: vec![], expected: vec![] } };
+        let probe = C14 { dense: Default::default(), corpus: Corpus { calls: vec![], expected: vec![] } };
         let mut st = Stats::default();
         direct_mismatch = probe.execute(&full_history, &mut st).violation;
     }
@@ -696,6 +721,22 @@ pub fn run_c14(cfg: &BatchCfg, corpus_size: usize, pristine_sample: usize) -> i3
             }
         }
     }
+    // plus one flood per language: 12 000 distinct ordinary words in one call (made once), so that
+    // anything the library remembers per distinct word is saturated before the probes that follow
+    // (facade and concrete interpreter are different objects: both are flooded)
+    for lang in 0..7usize {
+        let text = flood_text((cfg.seed as usize % 400_000) + lang * 12_000, 12_000);
+        let c = Call { lang, concrete: false, op: Op::Rewrite { text, thr: "0".into() }, crash_at: 0, reenter: 0, during_unwind: false };
+        if let Ok(exe) = std::env::current_exe() {
+            if let Ok((r, None)) = call_in_child(&exe, &serde_json::to_string(&c).unwrap_or_default(), "C", "UTC") {
+                soak_c.push(c.clone());
+                soak_e.push(r.clone());
+                soak_c.push(Call { concrete: true, ..c });
+                soak_e.push(r);
+            }
+        }
+    }
+    let flood_calls = soak_c.iter().filter(|c| is_flood(c)).count();
     let soak_repeats = 66_000usize;
     let mut soak_hit: Option<(usize, usize, String)> = None;
     let mut soak_probe: Option<(Call, String)> = None;
@@ -737,7 +778,7 @@ pub fn run_c14(cfg: &BatchCfg, corpus_size: usize, pristine_sample: usize) -> i3
         }
     }
     lines.push(format!("timing: soak {:.1}s", t_phase.elapsed().as_secs_f64()));
-    let check = C14 { corpus: Corpus { calls: calls.clone(), expected: expected.clone() } };
+    let check = C14 { dense: Default::default(), corpus: Corpus { calls: calls.clone(), expected: expected.clone() } };
     let outcome = if soak_hit.is_some() { None } else if silence_hit.is_none() && direct_mismatch.is_none() { Some(run_batch(&check, cfg)) } else { None };
     let captured = cap.stop();
     // ---- capture ends
@@ -812,7 +853,7 @@ pub fn run_c14(cfg: &BatchCfg, corpus_size: usize, pristine_sample: usize) -> i3
         let hi = soak_repeats;
         if let Some((pc, pe)) = &soak_probe {
             let detail = format!(
-                "after the soak ({} short calls, each repeated {} times in a row on one thread and one set of interpreters), call {} gives {:?}, alone in a pristine process it gives {:?}",
+                "after the soak ({} calls: short ones repeated {} times in a row each, floods of 12 000 distinct words once each, on one thread and one set of interpreters), call {} gives {:?}, alone in a pristine process it gives {:?}",
                 soak_c.len(),
                 hi,
                 serde_json::to_string(pc).unwrap_or_default(),
@@ -867,7 +908,7 @@ pub fn run_c14(cfg: &BatchCfg, corpus_size: usize, pristine_sample: usize) -> i3
     let mut extra = json!({
         "layers": {
             "a_send_sync_probe": "built and passed before this binary ran (./check C14 runs it first)",
-            "b_history_simulation": "runs with 1 simulated thread + one forward pass over the whole corpus + soak (up to 44 short calls, each repeated 66000 times in a row on one thread)",
+            "b_history_simulation": "runs with 1 simulated thread + one forward pass over the whole corpus + soak (up to 44 short calls, each repeated 66000 times in a row on one thread, then 14 floods of 12000 distinct words, probe calls after every phase)",
             "c_schedule_simulation": "runs with 2-4 simulated threads under the deterministic scheduler",
             "d_miri": if cfg.tier == "thorough" { "run by ./check after this binary (see miri section)" } else { "thorough tier only" },
             "e_silence": "fd 1 and fd 2 captured for the silence scan, the forward pass and the whole batch",
@@ -877,6 +918,7 @@ pub fn run_c14(cfg: &BatchCfg, corpus_size: usize, pristine_sample: usize) -> i3
         "pristine_processes_under_clock_skew": if clockskew_so().is_some() { calls.len() } else { 0 },
         "clock_skew": if clockskew_so().is_some() { "LD_PRELOAD shim: every clock reading jumps 5 s ahead (tools/clockskew.c)" } else { "shim not built (no C compiler): skipped" },
         "soak_calls": soak_c.len(),
+        "soak_flood_calls_12000_distinct_words": flood_calls,
         "soak_repetitions_per_call": soak_repeats,
         "captured_bytes": captured.len(),
     });
